@@ -207,6 +207,20 @@ func (r *cursorRun) checkAt(c *stree.Cursor[Key], p int, what string) string {
 	return ""
 }
 
+// checkKeyOnly compares Valid and Key only (no Has* predicate is called).
+func (r *cursorRun) checkKeyOnly(c *stree.Cursor[Key], p int, what string) string {
+	if p < 0 {
+		if c.Valid() || c.Key() != (Key{}) {
+			return r.errf("%s: cursor should be invalid but Valid=%v Key=%v", what, c.Valid(), c.Key())
+		}
+		return ""
+	}
+	if !c.Valid() || c.Key() != r.sh.nodes[p].key {
+		return r.errf("%s: cursor is at %v (valid=%v), should be at %v", what, c.Key(), c.Valid(), r.sh.nodes[p].key)
+	}
+	return ""
+}
+
 func runC03(c CursorCase, o *vk.Obs) string {
 	tr, msg := runTree(c.Tree, mode{model: true}, &vk.Obs{})
 	if msg != "" {
@@ -391,6 +405,24 @@ func runC03(c CursorCase, o *vk.Obs) string {
 			if p >= 0 {
 				np = r.pred(p)
 			}
+		case "hasnext", "hasprev":
+			// the predicate alone (an implementation may remember what it found)
+			want := false
+			if p >= 0 {
+				if mv.Kind == "hasnext" {
+					want = r.succ(p) >= 0
+				} else {
+					want = r.pred(p) >= 0
+				}
+			}
+			got := cc.HasNext()
+			if mv.Kind == "hasprev" {
+				got = cc.HasPrev()
+			}
+			if got != want {
+				return r.errf("%s = %v, set order says %v", what, got, want)
+			}
+			ret = cc
 		case "goto": // re-anchor this cursor at the (A mod n)-th key
 			k := r.keys[mv.A%len(r.keys)]
 			curs[act] = r.t.Cursor(Key{K: k.K})
@@ -446,7 +478,16 @@ func runC03(c CursorCase, o *vk.Obs) string {
 		}
 		pos[act] = np
 		for i := range curs { // the other cursor must not have moved
-			if msg := r.checkAt(curs[i], pos[i], fmt.Sprintf("%s (observing cursor %d)", what, i)); msg != "" {
+			// Every third move is followed by the full set of observers; the
+			// others only by Valid/Key, so that sequences such as HasNext, Max,
+			// Next run without any predicate call in between.
+			var msg string
+			if mv.A%3 == 0 {
+				msg = r.checkAt(curs[i], pos[i], fmt.Sprintf("%s (observing cursor %d)", what, i))
+			} else {
+				msg = r.checkKeyOnly(curs[i], pos[i], fmt.Sprintf("%s (observing cursor %d)", what, i))
+			}
+			if msg != "" {
 				return msg
 			}
 		}
